@@ -3,4 +3,5 @@ package batchers
 const (
 	zzFileLen = 2
 	zzFiles   = 2
+	zzRacePreempt = 1
 )
